@@ -92,6 +92,7 @@ type Term struct {
 	Sort *Sort
 	K    *big.Int // constant integer / bit-vector value
 	B    *bool    // constant boolean value
+	Def  *Term    // for a name introduced by Define: the constructor application it stands for (lets accessors fold)
 }
 
 func (t Term) String() string { return t.S }
